@@ -133,6 +133,26 @@ def make_cases(tier, seed):
             near = [x for x in near if isinstance(x, int) or x is None or isinstance(x, str)] + [2, 2.0, 2.5]
         rng.shuffle(near)
         cases.append((rec, [near[:5], {"a": near[0], "b": near[1], 1: near[2]}]))
+    for _ in range(nrand // 10):
+        fn = rng.choice(gen.VARPOS_KEYS + ["keys_contain_at_least_one_of", "keys_contain_at_most_one_of"] + gen.N_OF)
+        base = rng.sample(["a", "b", "c", 1, 2, "1", 0], rng.randint(1, 3))
+        ks = list(base)
+        for _k in range(rng.choice([1, 1, 2])):
+            j = rng.randrange(len(ks))
+            twin = {1: rng.choice([True, 1.0]), 0: rng.choice([False, 0.0]), 2: 2.0}.get(ks[j], ks[j]) if not isinstance(ks[j], bool) else ks[j]
+            ks.insert(rng.randint(0, len(ks)), rng.choice([ks[j], twin]))       # a repeat, or its ==-twin of another type
+        if fn in gen.N_OF:
+            acts = [rng.randint(0, len(ks)), ks]
+        elif fn in ("keys_contain_at_least_one_of", "keys_contain_at_most_one_of"):
+            acts = [ks]
+        else:
+            acts = ks
+        rec = {"datum": "value", "pre": "none", "fn": fn, "actuals": acts, "akw": {}}
+        exact = {k: 1 for k in base}
+        more = dict(exact, zz=1)
+        more2 = dict(more, yy=2)
+        less = {k: 1 for k in base[1:]} or {"q": 1}
+        cases.append((rec, [[exact, more, less, more2, {}], {"x": exact, "y": more2, "z": less}]))
     for _ in range(nrand):
         rec = gen.leaf_recipe(rng)
         docs = [gen.document(rng, depth=rng.choice([1, 2, 2, 3]), strish=0.6) for _ in range(2)]
